@@ -318,7 +318,7 @@ def structure_half(R, m, names):
         if isinstance(n, ast.ClassDef) and n.name == 'TypeConstructor':
             R.encode(f'{PARSING_PY}:{n.lineno} TypeConstructor', ast.get_source_segment(ptext, n))
     # hard names for the harness: at most H, covering every region (first picks of each region come first)
-    H = 8 if R.tier == 'quick' else 14
+    H = 6 if R.tier == 'quick' else 12
     chosen = []
     by_region = names_half.by_region
     order = ['empty', 'bs-bt', 'backtick', 'simple', 'syntax', 'astral', 'backslash', 'control', 'word-not-simple', 'bmp',
@@ -336,7 +336,7 @@ def structure_half(R, m, names):
     importlib.reload(C31_struct)
     src, tags = C31_struct.source(R.tier)
     gm = chrun.gen_module('C31_conditions', src)
-    pct = 150 if R.tier == 'quick' else 1200
+    pct = 170 if R.tier == 'quick' else 1300
     targets = [f'{gm}.check_{t}' for t in tags] + [f'{gm}.reach_{t}' for t in tags]
     res = chrun.run(targets, per_condition_timeout=pct, workers=8)
     for tg in tags:
@@ -347,7 +347,7 @@ def structure_half(R, m, names):
         if v == 'confirmed':
             R.ob(name, 'discharged' if reach else 'not_discharged', dt, {'twin': rmsg[:200]}, nontrivial=reach)
         elif v == 'refuted':
-            argn = ['a1', 'b1', 'n1'] + (['b2'] if '_' in tg else []) + ['n0']
+            argn = ['a1', 'b1', 'n1']
             args = chrun.parse_counterexample(msg, argn)
             if args is None:
                 raise HarnessError(f'cannot parse CrossHair counterexample: {msg}')
@@ -371,9 +371,9 @@ def run(R):
     from harness import C31_peg
     m = C31_peg.install()
     R.bounds = {'names': 'any length, all Unicode scalar values (z3 alphabet 0..0x2FFFF + class-signature reduction)',
-                'structure': 'depth 2; top constructor x first child (9 constructors x 10 primitives x H names); second child '
-                             'derived (quick) or with symbolic constructor/primitive for dict/struct/tuple (thorough); '
-                             'H = 8 (quick) / 14 (thorough) solver-produced names'}
+                'structure': 'depth 2; per top constructor (struct: per top-level field name) the first child is symbolic: 9 '
+                             'constructors x 5 (quick) / 10 (thorough) primitives incl. loci x H field names; the second child '
+                             'is derived from the first; H = 6 (quick) / 12 (thorough) solver-produced names'}
     R.assume('parsimonious is absent: the real grammar text and the real TypeConstructor run on a stand-in PEG engine '
              '(harness/C31_peg.py: ordered choice, greedy regex terms, parsimonious node shapes)',
              'ReferenceGenome objects are registered in a registry-only backend stub (real Backend.add/get_reference)',
